@@ -56,6 +56,10 @@ def YDOT(x):
     return ("fstr", (("const", "ydot[IDX_"), ("fmt", ("attr", x, "alias"), None, -1), ("const", "]")))
 
 
+def _opaque(t):
+    return isinstance(t, tuple) and bool(t) and t[0] in ("acc", "carried", "after", "unknown", "mutated")
+
+
 class OdeModel:
     def __init__(self, tree):
         self.tree = tree
@@ -102,6 +106,7 @@ class OdeModel:
         func = inline_stmt_calls(_copy.deepcopy(self.func), _stmt_resolver)
         self.flow = Flow(func, FILE, proc_resolver=_resolver, resolver=_pure_resolver)
         fl = self.flow
+        self._expand_built_lists(fl)
         params = [a.arg for a in self.func.args.args if a.arg != "self"]
         if not params:
             raise AnalysisError("_prepare_ode_content lost its parameters", (FILE, self.func.lineno))
@@ -123,6 +128,37 @@ class OdeModel:
         self.RHS, self.JAC = ("acc", self.RHSNAME), ("acc", self.JACNAME)
         self.sites = []
         self._classify()
+
+    @staticmethod
+    def _expand_built_lists(fl):
+        """A list built by an accumulation loop with intermediate statements and read afterwards (`dterms = []; for r in ..: c =
+        copy; c.remove(..); dterms.append((r, term))` ... `for r, t in dterms:`) is read as the comprehension it is equal to
+        (valueflow.summarise_appends), in every index, value, guard and loop domain of this function's facts."""
+        from .valueflow import summarise_appends
+        for _ in range(3):
+            sm = summarise_appends(fl)
+            if not sm:
+                return
+            changed = False
+
+            def ex(v):
+                nonlocal changed
+                if not isinstance(v, tuple) or not any(x in sm for x in walk(v)):
+                    return v
+                changed = True
+                return simp(subst(v, sm))
+            for lp in fl.all_loops.values():
+                lp.iter = ex(lp.iter)
+            for f in fl.facts:
+                if f.target in {k[1] for k in sm}:
+                    continue
+                f.index = ex(f.index) if f.index is not None else None
+                f.value = ex(f.value) if f.value is not None else None
+                f.guards = tuple((ex(c), p_) for c, p_ in f.guards)
+            for nm, lst in fl.assigns.items():
+                lst[:] = [(ex(v), loops, tuple((ex(c), p_) for c, p_ in guards), line, seq) for v, loops, guards, line, seq in lst]
+            if not changed:
+                return
 
     def _array_names(self):
         """The locals playing the roles of rhs[] and jacrhs[] (robust to renaming)."""
@@ -225,7 +261,8 @@ class OdeModel:
         elif self.is_n_spec(row):
             s.row = ("tgas",)
         else:
-            s.problems.append(("viol", "row", f"row index is neither species.index(..) nor n_spec: {show(row)}"))
+            # an index read from a list built elsewhere is not understood, which is not the same as wrong
+            s.problems.append(("unrec" if contains(row, _opaque) else "viol", "row", f"row index is neither species.index(..) nor n_spec: {show(row)}"))
         if col is not None:
             cx = self.species_index(col)
             if cx is not None:
@@ -233,7 +270,7 @@ class OdeModel:
             elif col[0] == "elem" and col[1][0] == "call" and col[1][1] == ("global", "range"):
                 s.col = ("range", col[1][2], col[2])
             else:
-                s.problems.append(("viol", "col", f"column index is not species.index(..): {show(col)}"))
+                s.problems.append(("unrec" if contains(col, _opaque) else "viol", "col", f"column index is not species.index(..): {show(col)}"))
         # --- kind by enclosing loop
         kind = None
         if outer is not None:
